@@ -40,7 +40,7 @@ def native_step(items, alt_items, opbyte):
     return req, {p: C.Native.run(req, p)[0] for p in ("debug", "release")}
 
 
-HEAVY = {"OP_MUL", "OP_DIV", "OP_MOD", "OP_NUM2BIN", "OP_WITHIN", "OP_LSHIFT", "OP_RSHIFT"}
+HEAVY = {"OP_MUL", "OP_DIV", "OP_MOD", "OP_NUM2BIN", "OP_WITHIN"}
 
 
 def configs(op, lens, tier):
